@@ -113,7 +113,9 @@ theorem allL : ∀ fuel, AllL fuel := by
       unfold startOpX at h
       try simp only [] at h
       split at h
-      · exact ih.stem _ _ _ _ _ h ht hc hL
+      · split at h
+        · exact ih.fin _ _ _ _ _ h ht hL (notok (by decide))
+        · exact ih.stem _ _ _ _ _ h ht hc hL
       · split at h
         · exact ih.fin _ _ _ _ _ h ht hL (notok (by decide))
         · split at h
